@@ -1554,6 +1554,9 @@ func (ctx Ctx) defineStmt(s *ast.AssignStmt) coq.Binding {
 	if len(s.Rhs) > 1 {
 		ctx.futureWork(s, "multiple defines (split them up)")
 	}
+	if len(s.Lhs) > 4 {
+		ctx.unsupported(s, "destructuring more than 4 return values")
+	}
 	rhs := s.Rhs[0]
 	// TODO: go only requires one of the variables being defined to be fresh;
 	//  the rest are assigned. We should probably support re-assignment
@@ -1770,6 +1773,9 @@ func (ctx Ctx) multipleAssignStmt(s *ast.AssignStmt) coq.Binding {
 
 	if len(s.Rhs) > 1 {
 		ctx.unsupported(s, "multiple assignments on right hand side")
+	}
+	if len(s.Lhs) > 4 {
+		ctx.unsupported(s, "destructuring more than 4 return values")
 	}
 	rhs := ctx.exprSpecial(s.Rhs[0], len(s.Lhs) == 2)
 
